@@ -2234,6 +2234,11 @@ func (b *BlocksHistory) Decode(d *Decoder) error {
 		return nil
 	}
 
+	// the encoder refuses longer histories, so they are not encodings of anything
+	if length > MaxBlocksHistory {
+		return fmt.Errorf("BlocksHistory length %d is greater than MaxBlocksHistory %d", length, MaxBlocksHistory)
+	}
+
 	// make the slice with length
 	history := make([]BlockInfo, length)
 	for i := uint64(0); i < length; i++ {
@@ -2289,6 +2294,11 @@ func (a *AuthPool) Decode(d *Decoder) error {
 
 	if length == 0 {
 		return nil
+	}
+
+	// the encoder refuses larger pools, so they are not encodings of anything
+	if length > AuthPoolMaxSize {
+		return fmt.Errorf("AuthPool length %d is greater than AuthPoolMaxSize %d", length, AuthPoolMaxSize)
 	}
 
 	// make the slice with length
